@@ -1,13 +1,16 @@
 // reconcile: core/task/manager.go handleMessage — the rule "reconciliation update for a task in
 // one of these Mesos states -> KILL" (C18, model Reconcile.v):
 //   - the list of mesos.TASK_* states of the disjunction,
-//   - whether the condition consults the roster (it does not in the pinned tree; a repaired tree
-//     would skip tasks the current life owns),
+//   - whether the condition skips the tasks found in the roster of the current life (it does since
+//     the repair of C18-a: `m.roster.getByTaskId(<task id of the status>) == nil`; without that
+//     conjunct recon_guarded = false and the full theorem of props/C18.v no longer checks),
 //   - the skeleton the model takes for granted: the reason literal is the name of
 //     mesos.REASON_RECONCILIATION, the guarded block builds calls.Kill and sends it, the status is
 //     handed to updateTaskStatus only in the else branch; core/task/scheduler.go reconciliationCall
 //     sends calls.Reconcile(calls.ReconcileTasks(nil)) and is installed in the SUBSCRIBED chain after
-//     controller.TrackSubscription; NewManager reads and writes the runtime entry aliecs/mesos_fid.
+//     controller.TrackSubscription; NewManager reads and writes the runtime entry aliecs/mesos_fid,
+//   - whether doKillTasks sends KILL only to the ACTIVE tasks of the set it removes from the roster
+//     or to the others as well (kill_inactive; the repair of C06-b added the second loop).
 package main
 
 import (
@@ -90,6 +93,48 @@ func rcHasCall(n ast.Node, pkg, name string) bool {
 	return found
 }
 
+// rcIsRosterMiss: `m.roster.getByTaskId(<task id of the status>) == nil` (or the exported
+// m.GetTask, which is the same lookup): the task is NOT in the roster of the current life.  The
+// opposite polarity, another receiver or another argument is not the rule the model has.
+func rcIsRosterMiss(e ast.Expr) bool {
+	if p, ok := e.(*ast.ParenExpr); ok {
+		return rcIsRosterMiss(p.X)
+	}
+	b, ok := e.(*ast.BinaryExpr)
+	if !ok || b.Op != token.EQL {
+		return false
+	}
+	if id, ok := b.Y.(*ast.Ident); !ok || id.Name != "nil" {
+		return false
+	}
+	c, ok := b.X.(*ast.CallExpr)
+	if !ok || len(c.Args) != 1 {
+		return false
+	}
+	s, ok := c.Fun.(*ast.SelectorExpr)
+	if !ok {
+		return false
+	}
+	switch s.Sel.Name {
+	case "getByTaskId":
+		r, ok := s.X.(*ast.SelectorExpr)
+		if !ok || r.Sel.Name != "roster" {
+			return false
+		}
+		if id, ok := r.X.(*ast.Ident); !ok || id.Name != "m" {
+			return false
+		}
+	case "GetTask":
+		if id, ok := s.X.(*ast.Ident); !ok || id.Name != "m" {
+			return false
+		}
+	default:
+		return false
+	}
+	arg := rcSrc(c.Args[0])
+	return strings.Contains(arg, "mesosStatus ") && strings.Contains(arg, "TaskID")
+}
+
 func reconcileRule() string {
 	_, f := parseFile("core/task/manager.go")
 	fd := findFunc(f, "Manager", "handleMessage")
@@ -167,8 +212,11 @@ func reconcileRule() string {
 			states, names = st, nm
 			continue
 		}
-		// any other conjunct: the only one the model knows is a roster lookup
-		if strings.Contains(src, "roster") || strings.Contains(src, "GetTask ") || strings.Contains(src, "getByTaskId") {
+		// any other conjunct: the only one the model knows is "the task is not in the roster"
+		if rcIsRosterMiss(c) {
+			if guarded {
+				die("handleMessage: two roster lookups in the reconciliation test")
+			}
 			guarded = true
 			continue
 		}
@@ -269,6 +317,30 @@ func reconcileRule() string {
 		die("NewManager no longer reads and writes the runtime entry aliecs/mesos_fid (read %v, write %v)", get, set)
 	}
 
+	// doKillTasks (KillTasks / Cleanup): the ACTIVE tasks of the set get KILL; do the others too?
+	dk := findFunc(f, "Manager", "doKillTasks")
+	if dk == nil {
+		die("Manager.doKillTasks not found")
+	}
+	killActive, killInactive := false, false
+	ast.Inspect(dk.Body, func(x ast.Node) bool {
+		rs, ok := x.(*ast.RangeStmt)
+		if !ok || !rcHasCall(rs.Body, "", "doKillTask") {
+			return true
+		}
+		if id, ok := rs.X.(*ast.Ident); ok && id.Name == "inactiveTasks" {
+			killInactive = true
+		} else if strings.Contains(rcSrc(rs.X), "ACTIVE") {
+			killActive = true
+		} else {
+			die("doKillTasks: a loop sends KILL to a set of tasks the model does not know: %s", rcSrc(rs.X))
+		}
+		return true
+	})
+	if !killActive {
+		die("doKillTasks no longer sends KILL to the ACTIVE tasks of the set")
+	}
+
 	type ent struct {
 		n int32
 		s string
@@ -279,7 +351,7 @@ func reconcileRule() string {
 	}
 	sort.Slice(ents, func(i, j int) bool { return ents[i].n < ents[j].n })
 	var b strings.Builder
-	b.WriteString("(* regenerated on every run by harness/cmd/translate (reconcile) from\n   core/task/manager.go (handleMessage, NewManager) and core/task/scheduler.go *)\n")
+	b.WriteString("(* regenerated on every run by harness/cmd/translate (reconcile) from\n   core/task/manager.go (handleMessage, NewManager, doKillTasks) and core/task/scheduler.go *)\n")
 	b.WriteString("From Verif Require Import Common.\nOpen Scope N_scope.\n")
 	b.WriteString("(* Mesos task states (numeric values of mesos.TaskState) for which a status update with reason\n   REASON_RECONCILIATION makes handleMessage send KILL *)\n")
 	b.WriteString("Definition recon_kill_states : list N := [\n")
@@ -293,6 +365,8 @@ func reconcileRule() string {
 	b.WriteString("].\n")
 	b.WriteString("(* does that test also look the task up in the roster of the current life? *)\n")
 	fmt.Fprintf(&b, "Definition recon_guarded : bool := %v.\n", guarded)
+	b.WriteString("(* doKillTasks (KillTasks, Cleanup): do the tasks of the set that are not ACTIVE get a KILL call too? *)\n")
+	fmt.Fprintf(&b, "Definition kill_inactive : bool := %v.\n", killInactive)
 	b.WriteString("(* the states in which Mesos considers a task alive (mesos.proto: non-terminal, reachable) *)\n")
 	fmt.Fprintf(&b, "Definition mesos_live_states : list N := [%d; %d; %d; %d]. (* STAGING STARTING RUNNING KILLING *)\n",
 		mesos.TASK_STAGING, mesos.TASK_STARTING, mesos.TASK_RUNNING, mesos.TASK_KILLING)
